@@ -20,6 +20,14 @@ def base_disc(rng, nfiles):
     names = rng.sample(["KICK", "SNARE", "HAT", "PAD", "BASS", "LEAD", "STR", "ORGAN"], nfiles)
     # entry 0 is always a tiny sample: a damaged size then ends its header inside a multi-byte field
     files = [G.SampleFile(n, G.random_words(rng, 10 if i == 0 else rng.choice([10, 300, 4026, 5000])), rate=rng.choice([22050, 44100])) for i, n in enumerate(names)]
+    # the last file spans two sectors and its SECOND sector begins with bytes that read as a sample header with an
+    # odd loop table (coarse length beyond the loop end): a damaged start sector of a sibling can land there (S112),
+    # and what is exported from such a junk header must not take the rest of the directory with it
+    decoy = G.SampleFile("DECOY", [], loop_type=0, loops=[G.Loop(at=5, fine=0, coarse=1000, duration=50), G.Loop(at=2, fine=7, coarse=70000, duration=9998)]).content()[:140]
+    words = G.random_words(rng, 5000)
+    at = (G.SECTOR - 140) // 2
+    words[at:at + 70] = [decoy[2 * j] | (decoy[2 * j + 1] << 8) for j in range(70)]
+    files[-1] = G.SampleFile(files[-1].name, words, rate=44100)
     return G.Disc([G.Partition([G.Volume("VOL", files, dir_mode=rng.choice(["chain", "run"]))], sectors=14)])
 
 
@@ -41,11 +49,11 @@ def listing(p: str):
     return names, None
 
 
-def run_case(rep: Report, cases, ctx, rng, img, disc, k, pos, val, base_files, base_names, with_model):
+def run_case(rep: Report, cases, ctx, rng, img, disc, k, pos, val, base_files, base_names, with_model, force=False):
     tbl = locate_table(img, disc)
     dmg = bytearray(img)
     off = tbl + k * ENTRY + pos
-    if dmg[off] == val:
+    if dmg[off] == val and not force:
         return
     dmg[off] = val
     names = [f.name for f in disc.partitions[0].volumes[0].files]
@@ -231,7 +239,8 @@ def run(ctx, rep: Report, deep: bool = False):
                     rep.nontrivial.add((vi, k, pos, val))
                     rep.feat("field_" + ("name" if pos < 12 else "type" if pos == 16 else "size" if 17 <= pos < 20 else "start" if 20 <= pos < 22 else "padding"))
             # whole-field boundary values: start sector and size
-            for fld, width, vals in (("start", 2, [0, 1, 2, 3, 13, 14, 15, 11385, 11386, 11387, 0x4000, 0x8000, 0xC000, 0xFFFF]),
+            chain_sectors = sorted({x for ch in info["chains"] for x in ch})   # heads, middles and tails of every file (the decoy sector among them)
+            for fld, width, vals in (("start", 2, sorted(set([0, 1, 2, 3, 13, 14, 15, 11385, 11386, 11387, 0x4000, 0x8000, 0xC000, 0xFFFF] + chain_sectors))),
                                      ("size", 3, [0, 1, 139, 140, 141, 8191, 8192, 8193, 0xFFFFFF])):
                 base_off = 20 if fld == "start" else 17
                 for v in vals:
@@ -240,7 +249,9 @@ def run(ctx, rep: Report, deep: bool = False):
                     raw = v.to_bytes(width, "little")
                     for j in range(width - 1):
                         dmg[tbl + k * ENTRY + base_off + j] = raw[j]
-                    run_case(rep, cases, ctx, rng, bytes(dmg), disc, k, base_off + width - 1, raw[width - 1], base_files, base_names, v in (11386, 0xFFFF, 140))
+                    # (the last byte may be unchanged while the earlier ones differ: the case still counts)
+                    run_case(rep, cases, ctx, rng, bytes(dmg), disc, k, base_off + width - 1, raw[width - 1], base_files, base_names, v in (11386, 0xFFFF, 140),
+                             force=bytes(dmg) != bytes(img))
                     rep.feat("field_boundary_values")
             # random multi-byte damage
             for _ in range(10 if not full else 60):
